@@ -33,7 +33,7 @@ def lane_bc(bc, lanes, j):
 
 def build(rng, tier):
     lines, groups = [], []   # group: (idx_nd, [(lane, idx_1d)], [idx_variant], L, nq, lanesel)
-    for _ in range(120 if tier == "quick" else 1500):
+    for _ in range(gen.N(tier, 120, 1500)):
         S = rng.choice(["Q", "F"])
         kind = rng.choice(["lin", "spl", "spl", "bil"])
         ext = rng.random() < 0.3
